@@ -1039,8 +1039,10 @@ func (store *KeyStore) destroyKeyWithFilename(filename string) error {
 
 // destroySymmetricKeyWithFilename removes symmetric key with given filename.
 func (store *KeyStore) destroySymmetricKeyWithFilename(filename string) error {
-	// Purge key data from cache too.
-	store.cache.Add(filename, nil)
+	// Purge key data from cache too. Symmetric keys are cached under their own
+	// name (<filename>_sym); <filename> itself is the cache entry of the private key
+	// of the key pair with the same owner and must stay intact.
+	store.cache.Add(getSymmetricKeyName(filename), nil)
 
 	// Remove key files. It's okay if they are already removed (or never existed).
 	// Keystore v1 does not differentiate between 'destroying' and 'removing' keys
@@ -1167,13 +1169,21 @@ func (store *KeyStore) generateAndSaveSymmetricKey(filename string, keyContext k
 	if err != nil {
 		return err
 	}
-	return store.WritePrivateKey(filename, encryptedSymKey)
+	err = store.WritePrivateKey(filename, encryptedSymKey)
+	if err != nil {
+		return err
+	}
+	// the previous key has just been moved into the history directory:
+	// a cached list of current and rotated file names does not name it yet
+	return store.refreshCachedHistoricalPrivateKeyFilenames(filepath.Clean(filename))
 }
 
 // GetSymmetricKey return symmetric key with specific identifier
 func (store *KeyStore) readEncryptedKey(filename string, keyContext keystore.KeyContext) ([]byte, error) {
 	encryptedSymKey, ok := store.Get(filename)
-	if !ok {
+	// an empty value is the marker left by the destruction of the key: look at the storage again,
+	// the key is either absent or has been generated anew since
+	if !ok || len(encryptedSymKey) == 0 {
 		return store.loadKeyAndCache(filename, keyContext, func() ([]byte, error) {
 			return store.ReadKeyFile(store.GetPrivateKeyFilePath(filename))
 		})
